@@ -21,14 +21,19 @@
 (* a function of the other variables (no extra states) that TLC prints     *)
 (* with every state: the replay performs the real calls after every step   *)
 (* and compares.  `obs` also carries what the *property* demands (`want`,  *)
-(* `must`), computed from the ghost variable `runs` only.                  *)
+(* `must`): the snapshot (ghost variable `runs`) of the last run not later *)
+(* than the date among those the repository still holds; that part does    *)
+(* not depend on how the code chooses or reads files.                      *)
 (*                                                                         *)
 (* Two Boolean constants select the behaviour of the code as it is where   *)
 (* it violates the property (TRUE = as the code is):                       *)
-(*   WriteEmptyIncr  an incremental (and its .dat line) is written even    *)
-(*                   when no complete transaction lies beyond the backed   *)
-(*                   up prefix; quick mode then compares the md5 of an     *)
-(*                   empty range, which always matches (F14)               *)
+(*   QuickTrustsEmptyRange                                                 *)
+(*                   quick mode (-Q) compares the md5 of the range of the  *)
+(*                   last .dat line even when that range is empty (an      *)
+(*                   incremental written while the only new bytes belonged *)
+(*                   to a transaction in progress): the sums always match  *)
+(*                   (F14).  FALSE: an empty last range says nothing, the  *)
+(*                   run falls back to the comparing procedure             *)
 (*   ChainByListing  the chain of files to use is derived from the         *)
 (*                   directory listing alone (F18); FALSE: from the        *)
 (*                   listing *and* the .dat of its full backup, a missing  *)
@@ -40,7 +45,7 @@ CONSTANTS MaxChunks,      \* bound on the committed chunks of the source file
           MaxOps,         \* bound on the number of actions
           MaxBackups,     \* bound on backup runs (a run = one timestamp)
           Opts,           \* option combinations of Backup: subset of 0..15, bits full=1 quick=2 gzip=4 killold=8
-          WriteEmptyIncr, ChainByListing
+          QuickTrustsEmptyRange, ChainByListing
 
 VARIABLES src,            \* committed chunks of the data file
           tail,           \* TRUE: a voted, unfinished transaction follows the committed part
@@ -196,26 +201,24 @@ Decide(o, ch) ==
   IF OptFull(o) THEN Dec("full", "forced", 0)
   ELSE IF ch = <<>> THEN Dec("full", "norepo", 0)
   ELSE
-  LET srcsz == Len(Bytes) IN
-  IF OptQuick(o)
-  THEN LET lines == IF ch[1].full THEN ch[1].dat ELSE <<>>          \* scandat(repofiles)
-       IN IF lines = <<>> THEN Dec("full", "nodat", 0)
-          ELSE LET last == lines[Len(lines)]
-                   w == IF last.s = last.e THEN "quick-empty-range" ELSE "quick-last-range"
-               IN IF srcsz < last.e THEN Dec("full", "shrunk", 0)
-                  ELSE IF Range(Bytes, last.s, last.e) = last.sum
-                       THEN IF srcsz = last.e THEN Dec("nochange", w, 0) ELSE Dec("incr", w, last.e)
-                       ELSE Dec("full", "changed", 0)
+  LET srcsz == Len(Bytes)
+      lines == IF ch[1].full THEN ch[1].dat ELSE <<>>                \* scandat(repofiles): last line of the .dat
+      last == lines[Len(lines)]
+      quick == OptQuick(o) /\ (lines = <<>> \/ QuickTrustsEmptyRange \/ last.s # last.e)
+  IN
+  IF quick
+  THEN IF lines = <<>> THEN Dec("full", "nodat", 0)
+       ELSE LET w == IF last.s = last.e THEN "quick-empty-range" ELSE "quick-last-range"
+            IN IF srcsz < last.e THEN Dec("full", "shrunk", 0)
+               ELSE IF Range(Bytes, last.s, last.e) = last.sum
+                    THEN IF srcsz = last.e THEN Dec("nochange", w, 0) ELSE Dec("incr", w, last.e)
+                    ELSE Dec("full", "changed", 0)
   ELSE LET repo == Cat(ch)
            reposz == Len(repo)
        IN IF srcsz = reposz /\ Bytes = repo THEN Dec("nochange", "whole", 0)
           ELSE IF srcsz < reposz THEN Dec("full", "shrunk", 0)
           ELSE IF SubSeq(Bytes, 1, reposz) = repo THEN Dec("incr", "prefix", reposz)
           ELSE Dec("full", "changed", 0)
-
-\* do_incremental_backup with nothing complete to copy
-Effective(dc) ==
-  IF dc.dec = "incr" /\ dc.from = CommittedEnd /\ ~WriteEmptyIncr THEN Dec("nochange", "nothing-complete", 0) ELSE dc
 
 AddLine(fs, base, line) ==
   [i \in 1..Len(fs) |-> IF fs[i].t = base THEN [fs[i] EXCEPT !.dat = Append(@, line)] ELSE fs[i]]
@@ -224,7 +227,7 @@ Backup(o) ==
   /\ Op /\ now < MaxBackups
   /\ LET t == now + 1
          ch == ChainOf(files, t)
-         dc == Effective(Decide(o, ch))
+         dc == Decide(o, ch)
          pos == CommittedEnd
          full == [t |-> t, full |-> TRUE, gz |-> OptGz(o), content |-> src, ix |-> src,
                   dat |-> <<[f |-> t, s |-> 0, e |-> pos, sum |-> src]>>]
@@ -300,7 +303,7 @@ VerifyDetects ==
 \* do_incremental_backup never starts beyond the last complete transaction (copyfile asserts it)
 IncrWithinFile ==
   (dmg = NoDmg /\ now < MaxBackups) =>
-    \A o \in Opts : LET dc == Effective(Decide(o, ChainOf(files, now + 1)))
+    \A o \in Opts : LET dc == Decide(o, ChainOf(files, now + 1))
                     IN dc.dec = "incr" => dc.from <= CommittedEnd
 
 \* structure the transcription relies on
